@@ -17,7 +17,9 @@ the end-of-stream condition (`eager`; this decides how bufio treats an untermina
 `jsonKind` (insane-json `DecodeBytes` + `IsObject`) is an oracle of the processing loop.
 
 All loops are fuelled (`fuel > remaining bytes` is always enough, every `ReadLine` consumes at least one
-byte because `B >= 16`); `Err.fuel` is never produced under that condition (see `readAll_render`).
+byte because `B >= 16`); `Err.fuel` is never produced (`c10_model_total` in Props/C10.lean, via
+`readAll_render_tail` and `exists_lines` in Model/BulkFrame.lean: every byte string is terminated lines plus an
+unterminated remainder, and the reader equals the line-level `frame` on it).
 -/
 namespace SV.Bulk
 
